@@ -55,6 +55,15 @@ def run(ctx):
                     if ctx.mine(i):
                         ctx.check(("direct", prov, spec, wall, shape), "nameless-tzinfo", enum=True)
                     i += 1
+    # wall times that do not exist (the hour skipped when daylight time starts) or exist twice: the value read back is the value supplied
+    for prov in ("zoneinfo", "pytz"):
+        for spec, wall in (("zone:Europe/Berlin", (2021, 3, 28, 2, 30, 0)), ("zone:Europe/Berlin", (2021, 10, 31, 2, 30, 0)), ("zone:America/New_York", (2024, 3, 10, 2, 15, 0)),
+                           ("zone:America/New_York", (2024, 11, 3, 1, 15, 0)), ("zone:Australia/Lord_Howe", (2024, 10, 6, 2, 10, 0)), ("zone:Pacific/Apia", (2011, 12, 30, 12, 0, 0)),
+                           ("zone:Europe/London", (2024, 3, 31, 1, 30, 0)), ("zone:America/Sao_Paulo", (2018, 11, 4, 0, 30, 0))):
+            for shape in ("dtstart", "setter", "due", "rdate", "exdate", "period", "startend"):
+                if ctx.mine(i):
+                    ctx.check(("direct", prov, spec, wall, shape), "gap-and-fold-walltimes", enum=True)
+                i += 1
     ctx.exhaustive["RFC 5545 property-name table x providers"] = True
     ctx.exhaustive["fixed whole-hour offsets and UTC aliases x shapes x providers"] = True
     rng = ctx.rng
@@ -159,6 +168,10 @@ def check_direct(ctx, case):
     ctx.nontrivial(True)
     tz = direct_tz(spec)
     dt = vals.attach(datetime(*wall), tz)
+
+    def plus(delta):
+        r = dt + delta
+        return r.tzinfo.normalize(r) if hasattr(r.tzinfo, "normalize") else r        # (pytz: arithmetic results have to be normalised by the caller)
     comp = icalendar.Todo() if shape == "due" else icalendar.Event()
     try:
         if shape == "dtstart":
@@ -168,14 +181,14 @@ def check_direct(ctx, case):
         elif shape == "due":
             comp.add("due", dt)
         elif shape == "rdate":
-            comp.add("rdate", [dt, dt + timedelta(days=1)])
+            comp.add("rdate", [dt, plus(timedelta(days=1))])
         elif shape == "exdate":
             comp.add("exdate", dt)
         elif shape == "period":
-            comp.add("rdate", [(dt, dt + timedelta(hours=2))])
+            comp.add("rdate", [(dt, plus(timedelta(hours=2)))])
         else:
             comp.add("dtstart", dt)
-            comp.add("dtend", dt + timedelta(hours=1))
+            comp.add("dtend", plus(timedelta(hours=1)))
         data = comp.to_ical()
         back = type(comp).from_ical(data)
     except Exception as e:
@@ -186,7 +199,7 @@ def check_direct(ctx, case):
     got = v.dts[0].dt if hasattr(v, "dts") else v.dt
     if isinstance(got, tuple):
         got = got[0]
-    want = dt + timedelta(hours=1) if shape == "startend" else dt
+    want = plus(timedelta(hours=1)) if shape == "startend" else dt
     line = [l for l in data.split(b"\r\n") if l.upper().startswith(name.encode())][:1]
     if not isinstance(got, datetime) or got.tzinfo is None or got != want or got.utcoffset() != want.utcoffset() or got.replace(tzinfo=None) != want.replace(tzinfo=None):
         ctx.fail("direct-value-differs", observed=(spec, shape, line, str(got)), expected=str(want))
